@@ -132,7 +132,7 @@ func check(c concCase, repeat int) (msg, discard string) {
 	if err != nil {
 		return "", "compile-error"
 	}
-	base := run.Exec(baseCode, univ.Copy(c.Input.X), steps, maxOuts)
+	base := run.Exec(baseCode, withSpare(univ.Copy(c.Input.X)), steps, maxOuts) // the same kind of input as the concurrent runs get
 	if base.Budget {
 		return "", "budget"
 	}
@@ -140,7 +140,10 @@ func check(c concCase, repeat int) (msg, discard string) {
 		return "gojq panicked: " + base.Panic, ""
 	}
 	baseline := render(base)
-	shared := univ.Copy(c.Input.X)
+	// the shared input's arrays have spare capacity, as decoded or appended
+	// arrays do: a native that appends to an operand writes into memory every
+	// goroutine sees
+	shared := withSpare(univ.Copy(c.Input.X))
 	snapshot := univ.Copy(shared)
 	for round := 0; round < repeat; round++ {
 		if round > 0 {
@@ -244,6 +247,26 @@ var templates = []string{
 	"builtins | length", "builtins | sort | .[-1]", "[builtins[] | strings] | length", "builtins | map(type) | unique", "[builtins, builtins] | map(length)", "builtins | index(\"yn/2\") != null",
 	"$ENV | length", "env | keys", "$__loc__", "[limit(3; repeat(1))]", "[range(5)] | map(. * 2)", "reduce range(10) as $i (0; . + $i)", "[foreach range(5) as $i (0; . + $i)]", "path(..)", "[.. | numbers]",
 	"def f: if . > 3 then . else . + 1 | f end; 0 | f", "[limit(5; recurse(. + 1))]?", "first(.[]?)", "isempty(.[]?)", "[.[]? | tojson | fromjson]", "@json", "@base64", "ltrimstr(\"a\")?", "\"\\(.)\"",
+}
+
+// withSpare rebuilds every array of v with three hidden slots beyond its length.
+func withSpare(v any) any {
+	switch v := v.(type) {
+	case []any:
+		if v == nil {
+			return v
+		}
+		w := make([]any, len(v), len(v)+3)
+		for i, x := range v {
+			w[i] = withSpare(x)
+		}
+		return w
+	case map[string]any:
+		for k, x := range v {
+			v[k] = withSpare(x)
+		}
+	}
+	return v
 }
 
 func bigOf(s string) *big.Int {
